@@ -74,6 +74,9 @@ def run_case(kind, q):
     for p, a in zip(pts, amps):
         frame += a * masks.circular(centerX=p[1], centerY=p[0], imageSizeX=shape[1], imageSizeY=shape[0],
                                     radius=radius, antialiased=True)
+    if q.get("dtype"):
+        # the same frame as detector counts in an integer (or single precision) dtype
+        frame = (frame if q["dtype"] == "float32" else np.round(frame)).astype(q["dtype"])
     msgs = []
     # the pattern object may have served frames of other shapes before
     for s_ in q.get("prior_shapes", []):
@@ -138,6 +141,17 @@ def search(ctx, boost=1, focus=()):
         ks = sorted({1, len(pts), int(rng.integers(1, len(pts) + 1))})
         q = {"seed": int(rng.integers(1 << 30)), "pattern": pat, "shape": shape, "centres": pts.tolist(),
              "amps": amps.tolist(), "bg": float(rng.uniform(0, 5)), "ks": ks}
+        if (k // 3) % 3 == 1:
+            dt = ("uint16", "uint8", "int32", "float32", "int16")[(k // 9) % 5]
+            a_sorted = np.sort(np.round(np.asarray(q["amps"])))
+            if dt == "float32":
+                q["dtype"] = dt
+                ctx.count("dtype_" + dt)
+            elif np.all(np.diff(a_sorted) >= 2) and a_sorted[0] >= 3 and a_sorted[-1] + 6 <= np.iinfo(dt).max:
+                q["dtype"] = dt       # brightnesses stay distinct after rounding to counts and fit the dtype
+                q["bg"] = float(np.round(q["bg"]))
+                q["amps"] = np.round(np.asarray(q["amps"])).tolist()
+                ctx.count("dtype_" + dt)
         if k % 3 == 1:    # earlier frame whose rfft2 spectrum has the same shape (width 2n <-> 2n+1)
             q["prior_shapes"] = [[shape[0], shape[1] + 1 if shape[1] % 2 == 0 else shape[1] - 1]]
         elif k % 3 == 2:  # earlier, larger frame
